@@ -211,6 +211,13 @@ def view(o):
         d = {"__cls__": type(o).__name__}
         for k, v in o._backend_options.items():
             d[k] = view(v)
+        # ... and what the object answers when asked (an option kept outside the options dict still is a field)
+        for k in ("observables", "callbacks", "default_evaluation_times", "initial_state", "with_modulation",
+                  "prefer_device_noise_model", "noise_model", "sampling_rate", "interaction_matrix"):
+            try:
+                d["attr:" + k] = view(getattr(o, k))
+            except AttributeError:
+                pass
         return d
     if isinstance(o, t["Results"]):
         return {"__cls__": "Results", "atom_order": view(o.atom_order), "total_duration": view(o.total_duration),
